@@ -69,11 +69,16 @@ let judge op args got =
       let l = fr (a 0) (a 1) and u = fr (a 2) (a 3) in
       let cls = if feq l u then "equal" else if Zar.sign (fst l) * Zar.sign (fst u) < 0 then "straddle"
         else if Zar.sign (fst l) * Zar.sign (fst u) = 0 then "zero-end" else if flt u l then "swapped" else "ordered" in
-      verdict ~cls ~want:(res_str qs (simplest_in_spec l u)) ~asis:(res_str qs (simplest_in_asis l u)) ~known_tag:None got
+      (* model fidelity: the hand-written model AND the whole body regenerated from rational/src/simplify.rs *)
+      let a1 = res_str qs (simplest_in_asis l u) and a2 = res_str qs (simplest_in_gen_x l u) in
+      let asis = if a1 = a2 then a1 else "model-and-regenerated-body-differ" in
+      verdict ~cls ~want:(res_str qs (simplest_in_spec l u)) ~asis ~known_tag:None got
   | "next_up" | "next_down" ->
       let x = fr (a 0) (a 1) and l = usz (a 2) in
       let up = op = "next_up" in
-      let asis = res_str qs ((if up then next_up_asis else next_down_asis) x l) in
+      let a1 = res_str qs ((if up then next_up_asis else next_down_asis) x l)
+      and a2 = res_str qs ((if up then next_up_gen_x else next_down_gen_x) x l) in
+      let asis = if a1 = a2 then a1 else "model-and-regenerated-body-differ" in
       if Zar.sign l = 0 then verdict ~nt:false ~want:"panic DivideBy0" ~asis ~known_tag:None got
       else begin
         let cls = if Zar.leq (snd x) l then "fits" else "cut" in
@@ -85,7 +90,8 @@ let judge op args got =
       end
   | "nearest" ->
       let x = fr (a 0) (a 1) and l = usz (a 2) in
-      let asis = res_str approx_str (nearest_asis x l) in
+      let a1 = res_str approx_str (nearest_asis x l) and a2 = res_str approx_str (nearest_gen_x x l) in
+      let asis = if a1 = a2 then a1 else "model-and-regenerated-body-differ" in
       if Zar.sign l = 0 then verdict ~nt:false ~want:"panic DivideBy0" ~asis ~known_tag:None got
       else if Zar.leq (snd x) l then verdict ~cls:"fits" ~want:("ok exact " ^ qs x) ~asis ~known_tag:None got
       else begin
@@ -100,7 +106,10 @@ let judge op args got =
       let mb = Zar.of_int mb and eb = Zar.of_int eb in
       let bits = usz (a 0) in
       let spec = simplest_from_ieee_spec mb eb bits in
-      let asis = simplest_from_ieee_asis mb eb bits in
+      (* model fidelity: the bit-level model AND the macro over C06's decoder model *)
+      let asis0 = simplest_from_ieee_asis mb eb bits in
+      let deep = (if op = "from_f32" then simplest_from_f32_deep else simplest_from_f64_deep) bits in
+      let asis = if asis0 = deep then asis0 else Panic Undocumented in
       let e = Zar.logand (Zar.shift_right bits (Zar.to_int mb)) (Zar.pred (Zar.shift_left Zar.one (Zar.to_int eb))) in
       let m = Zar.logand bits (Zar.pred (Zar.shift_left Zar.one (Zar.to_int mb))) in
       let large = known_ieee mb eb bits in   (* class of the repaired finding F04 (ulp >= 2): histogram only *)
@@ -124,7 +133,12 @@ let judge op args got =
         let spec0 = simplest_from_float_spec b md p sg0 ex0 in
         let sg, ex = fnormalize b sg0 ex0 in
         let spec = simplest_from_float_spec b md p sg ex in
-        let asis = simplest_from_float_asis b md p sg ex in
+        (* model fidelity: the value-level model AND the deep model (bounds formed at Repr level through the
+           regenerated ulp / with_precision / add_ref_val / try_from inside the regenerated body), with the exact
+           digit count and with the worst admissible estimate of Repr::digits_ub *)
+        let asis0 = simplest_from_float_asis b md p sg ex in
+        let deep = simplest_from_float_deep_x b md p sg0 ex0 and deep1 = simplest_from_float_deep_x1 b md p sg0 ex0 in
+        let asis = if asis0 = deep && deep = deep1 then asis0 else Panic Undocumented in
         (* self-check of the interval specification against the shared rounding specification *)
         let v = scaled b sg ex Zar.one in
         let selfcheck =
@@ -147,6 +161,26 @@ let judge op args got =
           verdict ~cls ~want:(res_str optq spec) ~asis:(res_str optq asis) ~known_tag got
         end
       end
+  | "float_bounds" ->
+      (* the bounds simplest_from_float forms, digit for digit (stored Reprs and context precisions) against the deep
+         model; the verdict: the two end points are the specified preimage interval of the float *)
+      let b = usz (a 0) and md = mode_of (a 1) and p = usz (a 2) in
+      let sg0 = z (a 3) and ex0 = z (a 4) in
+      let fb ((s, e), pr) = hx s ^ " " ^ hx e ^ " " ^ hx pr in
+      let asis = res_str (fun (((((l, r), il), ir), lb), rb) ->
+          String.concat " " [ fb l; fb r; b2s il; b2s ir; fb lb; fb rb ]) (float_bounds_deep_x b md p sg0 ex0) in
+      let sg, ex = fnormalize b sg0 ex0 in
+      let ((lo, hi), ilo), ihi = float_interval_spec b md p sg ex in
+      let want = String.concat " " [ "ok"; qs lo; qs hi; b2s ilo; b2s ihi ] in
+      let cls = a 1 ^ (if Zar.sign p = 0 then "-p0" else if Zar.equal (Zar.abs sg) Zar.one then "-pow" else "") in
+      (match got with
+       | [ "ok"; _; _; _; _; _; _; il; ir; lbs; lbe; _; rbs; rbe; _ ] ->
+           let gotq = String.concat " " [ "ok"; qs (scaled b (z lbs) (z lbe) Zar.one); qs (scaled b (z rbs) (z rbe) Zar.one); il; ir ] in
+           let extra = fid asis got ^ " cls=" ^ cls in
+           if gotq = want then pass ~extra ()
+           else if known_oddbase b md p && same_as asis got then known "float_odd_base_half_ulp" want
+           else fail want
+       | _ -> fail (want ^ ";asis=" ^ asis))
   | _ -> fail ("unknown-op-" ^ op)
 
 let () = serve judge
